@@ -47,6 +47,7 @@ PROPS = {
     ),
     "C04": dict(
         kind="ext", pkg="./qbft", level="fault_enumeration", engine="qbftsim",
+        extra_builds={"comp": dict(kind="inpkg", pkg="./core/consensus/qbft", overlay=[("c04comp", "core/consensus/qbft")], stamp=["memnet", "fakebn"])},
         technique="property-based fault injection (rapid + synctest virtual time): generated fault plans (silent / late / crash at time / crash inside k-th broadcast after a recipient subset) and latencies against production qbft.Run with production round timers",
         level_text="Generated fault plans and latency patterns on virtual time with the production round timer; oracle: every non-faulty member decides, "
                    "in a round <= R_fault + n, no honest message is rejected as unjust, agreement and validity hold. Fault enumeration because the quantifier is over crash points and fault sets; "
@@ -54,8 +55,8 @@ PROPS = {
         level_note="Termination and the rotation bound are asserted for the timer GetRoundTimerFunc selects under the default feature set; opt-in timers only for safety/no-unjust (stalls reported as observations). "
                    "Leader rotation is the formula of core/consensus/qbft.leader re-stated in the harness. One open finding (eager_timer_split_doubling) is excluded by signature.",
         runs={
-            "quick": [dict(test="TestC04Random", checks=15000, shards=4), dict(test="TestC04KnownFinding", checks=3)],
-            "thorough": [dict(test="TestC04Random", checks=100000, shards=16, timeout=3000), dict(test="TestC04KnownFinding", checks=3)],
+            "quick": [dict(test="TestC04Random", checks=15000, shards=4), dict(test="TestC04KnownFinding", checks=3), dict(test="TestC04Component", bin="comp", checks=150, shards=3, shrinktime="20s")],
+            "thorough": [dict(test="TestC04Random", checks=100000, shards=12, timeout=3000), dict(test="TestC04KnownFinding", checks=3), dict(test="TestC04Component", bin="comp", checks=4000, shards=4, timeout=3000)],
         },
     ),
     "C07": dict(
